@@ -788,6 +788,8 @@ func writeControl(w io.Writer, data controlData) error {
 		"multiline": func(strs string) string {
 			var b strings.Builder
 			s := bufio.NewScanner(strings.NewReader(strings.TrimSpace(strs)))
+			// a line may be longer than the scanner's default token limit
+			s.Buffer(nil, len(strs)+1)
 			s.Scan()
 			b.Write(bytes.TrimSpace(s.Bytes()))
 			for s.Scan() {
